@@ -292,8 +292,26 @@ class Gen:
         if mode != self.mode:
             for r in A.REGS:
                 self.regs[r] = 'A'
+        rgb_to_raw = self.mode == 'rgb' and mode == 'raw'
         self.mode = mode
-        return {'op': 'units', 'mode': mode}
+        stmt = {'op': 'units', 'mode': mode}
+        out = [stmt]
+        hidden = ()
+        if rgb_to_raw:
+            # whether the rewritten hue/saturation/brightness are rounded to integers here or only when
+            # transmitted is not documented (both within one raw unit): they are set afresh before any use.
+            # What a following `set` transmits after this transition is checked by C14's pairs.
+            hidden = ('hue', 'saturation', 'brightness')
+        if self.profile == 'units':
+            # show every setting after the switch: exactly the listed ones may have been rewritten
+            shown = [{'op': 'print', 'nl': False, 'e': ('reg', r)} for r in A.REGS
+                     if not (r == 'time' and self.time_is_pattern) and r not in hidden]
+            shown[-1]['nl'] = True
+            out += shown
+        for r in hidden:
+            out.append({'op': 'setreg', 'reg': r, 'e': A.num(str(self.rng.randint(0, 65535)))})
+            self.regs[r] = 'E'
+        return out if len(out) > 1 else stmt
 
     def declare(self, scope, name, typ, cls):
         self.name_types[name] = typ
